@@ -55,6 +55,9 @@ def check(ctx: Ctx):
 
     _support.compose(ctx, _col17.check_remove_overlapping, keep=("GUARDSHAPE", "EFFECT", "PAIR"))
     _support.check_axis_loop_guards(ctx)
+    _support.check_single_result(ctx)
+    _support.check_popped_default(ctx, "droplets.image_analysis.get_length_scale", "smoothing")
+    _support.compose(ctx, locate.check_dedup_metric, keep=("METRIC",), site_filter=lambda s_: s_.endswith(":min-distance"))
     # the droplet-counting method hands the caller's options (threshold rule, minimal radius) to locate_droplets
     _support.check_kwargs_reach_call(ctx, "droplets.image_analysis.get_length_scale", "locate_droplets")
     ctx.expect("FORWARD", 1)
